@@ -73,7 +73,7 @@ def run(ck):
     ck.rule("C02.R1", "scope guard pairing: count inc/dec, construction, restore, unwind", floor=8)
     ck.rule("C02.R2", "get_default: global fast path iff no scope is live anywhere", floor=2)
     ck.rule("C02.R3", "per-thread default is written only by set_default/guard drop, never from get_global()", floor=3)
-    ck.rule("C02.R4", "global default: single CAS-guarded write, published before INITIALIZED, guarded read", floor=6)
+    ck.rule("C02.R4", "global default: single CAS-guarded write, published before INITIALIZED, guarded read", floor=5)
     ck.rule("C02.R5", "EXISTS set by both install paths", floor=2)
     for cfg in configs:
         F = Facts(cfg)
